@@ -529,7 +529,7 @@ _AF = ["handle_authentication", "credentials_ok", "clear_password", "get_groups"
 for _c, _nm in ((0, "right_password"), (1, "wrong_password"), (2, "unknown_user"), (3, "missing_password"), (4, "other_user")):
     O(id="C08.auth_" + _nm, props=["C08", "C02"], entry="harness_auth_step", defines=["AUTHCASE=%d" % _c], functions=_AF,
       symbolic="(concrete credentials per obligation; group masks and the password buffer are checked)", assumes=[],
-      bounds="database of 4 users / 2 groups; one authenticate request (%s)" % _nm, **_scn_auth)
+      bounds="database of 9 users / 3 groups; one authenticate request (%s)" % _nm, **_scn_auth)
 O(id="C08.reauth", props=["C08", "C07"], entry="harness_reauth", functions=_AF, symbolic="(concrete sequence)", assumes=[],
   bounds="authenticate u1 (ok), u2 (bad password), u2 (ok); then disconnect", **_scn_auth)
 for _c, _nm in ((0, "member"), (1, "other_group"), (2, "unauthenticated")):
@@ -541,7 +541,7 @@ for _c, _nm, _rch in ((0, "unauthenticated", ["refused"]), (1, "own_account", ["
                       (4, "readonly_account", ["refused"]), (5, "unknown_account", ["refused"])):
     O(id="C20.passwd_" + _nm, props=["C20", "C08", "C02"], entry="harness_passwd", defines=["PWCASE=%d" % _c], reach=_rch, functions=_AF,
       symbolic="(concrete requester/target per obligation)", assumes=["the requester's own authentication succeeds where the case needs it"],
-      bounds="database of 4 users; one passwd request (%s); file writes complete" % _nm, **_scn_auth)
+      bounds="database of 9 users; one passwd request (%s); file writes complete" % _nm, **_scn_auth)
 O(id="C20.crash_atomic", props=["C20"], entry="harness_crash_atomic", reach=["completed", "crashed", "failed"], functions=["write_user_data"],
   symbolic="ftruncate failure, outcome of each of up to 3 write calls (error / short by 1..3 bytes / complete), crash point after any of the first 7 file-system calls",
   assumes=[], bounds="old content 4 bytes, new content 3 bytes, <= 3 write calls", **_scn_auth)
@@ -651,7 +651,7 @@ O(id="C08.visibility_prefix_group", props=["C08"], entry="harness_visibility", d
   functions=_AF + ["add_fetch_to_state_and_notify", "set_or_call", "fill_access", "get_elements"], symbolic="state value", assumes=["set-up requests succeed"],
   bounds="state 's' with fetchGroups/setGroups [g1]; peer P1 is a member of group 'g' only (a different group whose name is a prefix)", **_scn_auth)
 O(id="C20.passwd_own_readonly_account", props=["C20", "C08", "C02"], entry="harness_passwd", defines=["PWCASE=6"], reach=["refused"], functions=_AF,
-  symbolic="(concrete requester/target)", assumes=["the requester's own authentication succeeds"], bounds="database of 5 users; the read-only user changes its own password", **_scn_auth)
+  symbolic="(concrete requester/target)", assumes=["the requester's own authentication succeeds"], bounds="database of 9 users; the read-only user changes its own password", **_scn_auth)
 for _r, _nm, _op, _rch in ((10, "contains_all_of_ci_second_missing", "A", ["not_matched"]), (11, "contains_all_of_ci", "A", ["matched"]), (12, "equals_not_ci", "A", ["not_matched"]),
                            (12, "equals_not_ci", "z", ["matched"]), (13, "contains_ci", "A", ["matched"]), (14, "starts_with_ci", "A", ["matched"]), (15, "ends_with_ci", "A", ["matched"]),
                            (15, "ends_with_ci", "z", ["not_matched"])):
@@ -843,7 +843,7 @@ for _r, _nm in ((16, "option_name_prefix_alone"), (17, "option_name_prefix"), (1
 for _c, _nm in ((7, "name_extends_requesters"), (8, "name_is_prefix_of_requesters")):
     O(id="C20.passwd_account_whose_" + _nm, props=["C20", "C08", "C02"], entry="harness_passwd", defines=["PWCASE=%d" % _c], reach=["refused"], functions=_AF,
       symbolic="(concrete requester/target)", assumes=["the requester's own authentication succeeds"],
-      bounds="database of 6 users; users 'u1' and 'u1x' (one name a prefix of the other), neither admin", **_scn_auth)
+      bounds="database of 9 users; users 'u1' and 'u1x' (one name a prefix of the other), neither admin", **_scn_auth)
 
 O(id="C03.self_request_bystander", props=["C03", "C05", "C07"], entry="harness_self_request_bystander", functions=_RF + ["remove_peer_from_routes", "remove_peer_from_routing_table"],
   symbolic="set value, reply payload", assumes=["set-up succeeds"], bounds="skeleton: O add 's'; O set 's' (routed to itself); bystander C disconnects; O replies", **_scn_route)
@@ -893,16 +893,16 @@ _note_add("C05", "peer_leaves_with_everything: one peer that owns a subscribed s
 _note_add("C03", "self_request_bystander: a peer's set to its own state is neither answered nor dropped by a bystander's disconnect.")
 
 # ------------------------------------------------------------------------------------------------ thorough tier: deeper bounds (second batch)
-O(id="C16.match_functions_len5", props=["C16"], harness="harness/c16_match.c", entry="harness_match", tier="thorough", reach=["long_path"], unwind=8, defines=["SL=5"],
+O(id="C16.match_functions_len5", props=["C16"], harness="harness/c16_match.c", entry="harness_match", tier="quick", reach=["long_path"], unwind=8, defines=["SL=5"],
   functions=["the twelve match functions"], symbolic="path, operand and second operand: each 0..5 arbitrary non-NUL bytes",
   stubs=["strlen/strcmp/strncmp/strstr/strcasecmp/strncasecmp/strcasestr: reference implementations (C locale)"], assumes=[], bounds="strings <= 5 bytes",
   timeout={"quick": 900, "thorough": 3600}, flags=["--no-bounds-check"])
-O(id="C12.frame_rules_payload16", props=["C12", "C06"], entry="harness_frame_rules", tier="thorough", defines=["MAXPAY=16"],
+O(id="C12.frame_rules_payload16", props=["C12", "C06"], entry="harness_frame_rules", tier="quick", defines=["MAXPAY=16"],
   reach=["rsv", "big_control", "ping", "close_ok", "stray_continuation", "continuation", "text", "first_fragment"],
   functions=["ws_handle_frame"], symbolic="as C12.frame_rules with payloads up to 16 bytes", assumes=["as C12.frame_rules"], bounds="payload <= 16 bytes or 126",
   **dict(_ws, unwind=18, unwindset={"strlen.0": 24, "frame_rules.0": 18, "ws_writev.0": 22, "cjet_is_byte_sequence_valid.0": 18}, timeout={"quick": 900, "thorough": 3600}))
 O(id="C18.auto_aligned_len33_off3", entry="harness_auto", tier="thorough", unwind=35, reach=["auto_word_path"], defines=["ALEN=33", "AOFF=3"],
-  symbolic="text bytes, length 0..33, is_complete; alignment 3", bounds="length <= 33 (three 64-bit words after the unaligned head)", timeout={"quick": 900, "thorough": 3600},
+  symbolic="text bytes, length 0..33, is_complete; alignment 3", bounds="length <= 33 (three 64-bit words after the unaligned head)", timeout={"quick": 900, "thorough": 3600}, mem_gb=24,
   **dict(_c18, functions=["cjet_is_word_sequence_valid_auto_alligned"]))
 
 O(id="C13.header_line_step", props=["C13", "C05", "C12", "C06"], entry="harness_header_line", reach=["eof", "bad_line", "upgraded", "next_line"],
@@ -934,3 +934,37 @@ PROPERTY_NOTES["C18"]["outside"] = ("texts longer than 17 bytes through the auto
 PROPERTY_NOTES["C13"]["composition"] = PROPERTY_NOTES["C13"]["composition"].rstrip() + (" header_line_step: one header line in the HTTP phase: a line the parser rejects is answered with one 400 "
                                     "and the connection is released once, end of stream releases it without a response, a completed upgrade switches to frame reading, otherwise the next line is requested; no websocket frame is written before the upgrade.")
 PROPERTY_NOTES["C08"]["composition"] = PROPERTY_NOTES["C08"]["composition"].rstrip() + " call_rights_*: calling a method follows the call groups (a member of the set group only, or an unauthenticated peer, is refused)."
+
+O(id="C16.match_functions_len8", props=["C16"], harness="harness/c16_match.c", entry="harness_match", tier="quick", reach=["long_path"], unwind=11, defines=["SL=8"],
+  functions=["the twelve match functions"], symbolic="path, operand and second operand: each 0..8 arbitrary non-NUL bytes",
+  stubs=["strlen/strcmp/strncmp/strstr/strcasecmp/strncasecmp/strcasestr: reference implementations (C locale)"], assumes=[], bounds="strings <= 8 bytes",
+  timeout={"quick": 900, "thorough": 3600}, flags=["--no-bounds-check"])
+O(id="C12.frame_rules_payload40", props=["C12", "C06"], entry="harness_frame_rules", tier="quick", defines=["MAXPAY=40"],
+  reach=["rsv", "big_control", "ping", "close_ok", "stray_continuation", "continuation", "text", "first_fragment"],
+  functions=["ws_handle_frame"], symbolic="as C12.frame_rules with payloads up to 40 bytes", assumes=["as C12.frame_rules"], bounds="payload <= 40 bytes or 126",
+  **dict(_ws, unwind=42, unwindset={"strlen.0": 24, "frame_rules.0": 42, "ws_writev.0": 46, "cjet_is_byte_sequence_valid.0": 42}, timeout={"quick": 900, "thorough": 3600}))
+
+# deeper bounds for cheap leaves
+O(id="C13.url_match_len24", props=["C13"], harness="harness/c13_url.c", entry="harness_url_match", reach=["match", "short_path"], unwind=26, defines=["UMAX=24"],
+  unwindset={"strlen.0": 12, "strncmp.0": 26}, functions=["find_url_handler"],
+  symbolic="requested path: length 0..24 and every byte (not NUL-terminated, exact-size heap object)", stubs=[], assumes=[], bounds="paths <= 24 bytes, one handler '/api/jet/'")
+O(id="C09.msg_bytes_only_len24", props=["C09", "C06"], harness="harness/c09_parse_bounds.c", entry="harness_parse_bounds", unwind=26, defines=["MSGMAX=24"],
+  functions=["parse_message"], symbolic="message length 1..24 and every message byte (no terminator guaranteed); message in an exact-size heap object",
+  stubs=["cJSON_ParseWithOpts / cJSON_ParseWithLengthOpts: contract stubs reading what the documented contract lets the library read",
+         "log_peer_err: empty; handlers: unreachable (the stub reports a parse error)"],
+  assumes=[], bounds="messages <= 24 bytes", also_for=["C06"])
+for _off in (1, 6):
+    O(id="C12.unmask_len48_off%d" % _off, props=["C12", "C06"], entry="harness_unmask", reach=["word_path"], defines=["AOFF=%d" % _off, "ULEN=48"], tier="quick",
+      functions=["unmask_payload"], symbolic="payload bytes, length 0..48, mask, observed index; exact-size heap object at alignment %d" % _off,
+      assumes=[], bounds="length <= 48 (up to six 64-bit words + pre/post bytes); alignment %d" % _off,
+      **dict(_ws, unwind=6, unwindset={"unmask_payload.0": 9, "unmask_payload.1": 10, "unmask_payload.2": 9, "unmask_payload.3": 9, "unmask_payload.4": 9, "harness_unmask.0": 50},
+             timeout={"quick": 900, "thorough": 3600}))
+
+O(id="C16.match_functions_len16", props=["C16"], harness="harness/c16_match.c", entry="harness_match", tier="thorough", reach=["long_path"], unwind=19, defines=["SL=16"],
+  functions=["the twelve match functions"], symbolic="path, operand and second operand: each 0..16 arbitrary non-NUL bytes",
+  stubs=["strlen/strcmp/strncmp/strstr/strcasecmp/strncasecmp/strcasestr: reference implementations (C locale)"], assumes=[], bounds="strings <= 16 bytes",
+  timeout={"quick": 900, "thorough": 3600}, flags=["--no-bounds-check"])
+O(id="C12.frame_rules_payload125", props=["C12", "C06"], entry="harness_frame_rules", tier="thorough", defines=["MAXPAY=125"],
+  reach=["rsv", "big_control", "ping", "close_ok", "stray_continuation", "continuation", "text", "first_fragment"],
+  functions=["ws_handle_frame"], symbolic="as C12.frame_rules with payloads up to 125 bytes (every control-frame size)", assumes=["as C12.frame_rules"], bounds="payload <= 125 bytes or 126",
+  **dict(_ws, unwind=127, unwindset={"strlen.0": 24, "frame_rules.0": 127, "ws_writev.0": 130, "cjet_is_byte_sequence_valid.0": 127}, timeout={"quick": 900, "thorough": 3600}))
